@@ -218,6 +218,15 @@ def exec_for(eng, s, fr):
     spec = loop_spec(eng, anchor, fr)
     if spec is None:
         raise Unsupported('loop %s has no invariant in the contract' % anchor)
+    live = None
+    if isinstance(it, V) and it.ty[0] == 'list' and isinstance(s.iter, ast.Attribute) and not eng.pure:
+        # `for x in obj.field:` walks the LIVE list object by index; the executor iterates the value the field had at the
+        # loop head.  The two agree if the list is unchanged whenever the loop goes round again (a body that changes it and
+        # then leaves the loop is fine): an applicability condition of the loop rule, proved at the end of every iteration -
+        # when it cannot be proved the unit is UNDECIDED (the model does not apply), never a violation
+        base = eng.eval(s.iter.value, fr)
+        if isinstance(base, V) and (base.ty[0] == 'ref' or (base.ty[0] == 'opt' and base.ty[1][0] == 'ref')):
+            live = it
     n, elem_at, after_exit = iteration_model(eng, it, fr)
     n = z3.simplify(n)
     idxname = spec.index or ('_i_' + anchor)
@@ -228,7 +237,7 @@ def exec_for(eng, s, fr):
     def bind(idx):
         eng.assign(s.target, elem_at(idx), fr)
 
-    run_loop(eng, s, fr, anchor, spec, idxname, body_guard, bind, n, after_exit)
+    run_loop(eng, s, fr, anchor, spec, idxname, body_guard, bind, n, after_exit, live=live)
 
 
 def exec_while(eng, s, fr):
@@ -241,7 +250,7 @@ def exec_while(eng, s, fr):
     run_loop(eng, s, fr, anchor, spec, idxname, None, None, None, None)
 
 
-def run_loop(eng, s, fr, anchor, spec, idxname, body_guard, bind, n, after_exit):
+def run_loop(eng, s, fr, anchor, spec, idxname, body_guard, bind, n, after_exit, live=None):
     from .engine import PathEnd, Unsupported, _Break, _Continue, PyRaise
     is_for = body_guard is not None
     uname = eng.unit_short
@@ -282,7 +291,7 @@ def run_loop(eng, s, fr, anchor, spec, idxname, body_guard, bind, n, after_exit)
                 (owner or fr).vars[name] = eng.fresh(cur.ty, name)
         if eng.st.yielded is not None and has_yield(s.body):
             eng.st.yielded = eng.fresh(eng.st.yielded.ty, 'yielded')
-        eng.havoc_heap_for_loop(s, fr, spec)
+        inv_held = eng.havoc_heap_for_loop(s, fr, spec) or []
         # a heap frame declared in the sidecar is CHECKED: at the end of an iteration every field outside it is unchanged
         frame_decl = spec.extra.get('heap_modifies')
         head_heap = dict(eng.st.heap) if frame_decl is not None else None
@@ -293,6 +302,8 @@ def run_loop(eng, s, fr, anchor, spec, idxname, body_guard, bind, n, after_exit)
             eng.assume(z3.Or(idx.t <= n, idx.t == 0))
         for inv in spec.inv:
             eng.assume(eng.pure_bool(inv, fr))
+        if live is not None:
+            eng.assume(eng.eval(s.iter, fr).t == live.t)        # induction hypothesis of the applicability condition
         if is_for:
             enter = eng.choose([body_guard(idx.t), z3.Not(body_guard(idx.t))]) == 0
         else:
@@ -325,6 +336,12 @@ def run_loop(eng, s, fr, anchor, spec, idxname, body_guard, bind, n, after_exit)
                 eng.prove('unexpected-exception.RuntimeError:dict-changed-size-during-iteration#%s' % anchor,
                           idx.t + 1 >= n, kind='unexpected-exception')
             fr.ghost[idxname] = V(INT, idx.t + 1)
+            for o_ in inv_held:
+                from . import heap as H_
+                H_.assert_invariant(eng, o_, 'loop-back#%s' % anchor, exempt=set(spec.extra.get('objinv_exempt', [])))
+            if live is not None:
+                eng.prove('applicability#%s.live-list-unchanged-when-the-loop-continues' % anchor,
+                          eng.eval(s.iter, fr).t == live.t, kind='applicability', assume_after=False)
             if head_heap is not None:
                 for key_ in sorted(eng.st.heap):
                     cname, f_ = key_
